@@ -128,7 +128,18 @@ impl Expression for Op {
         use ast::Opcode::{Add, And, Div, Eq, Err, Ge, Gt, Le, Lt, Merge, Mul, Ne, Or, Sub};
 
         match self.opcode {
-            Err => return self.lhs.resolve(ctx).or_else(|_| self.rhs.resolve(ctx)),
+            Err => {
+                return match self.lhs.resolve(ctx) {
+                    // `abort` and `return` end the program; they are not errors
+                    // that can be coalesced.
+                    Result::Err(
+                        err @ (expression::ExpressionError::Abort { .. }
+                        | expression::ExpressionError::Return { .. }),
+                    ) => Result::Err(err),
+                    Result::Err(_) => self.rhs.resolve(ctx),
+                    ok => ok,
+                };
+            }
             Or => {
                 return self
                     .lhs
